@@ -328,7 +328,7 @@ def run(ctx):
     from . import common as _r7
     _r7.import_clauses(ctx, res, 'C06', ['C06.e'], 'C01', 'C01.t', 'R-AGREE', 'the key built while replaying is the key the entry was recorded under (same text in every process, built from the call\'s own arguments)', floor=3)
     _r7.import_clauses(ctx, res, 'C20', ['C20.d'], 'C01', 'C01.r', 'R-PROV', 'file inputs: the replayed code finds the recorded bytes at the path it named', floor=1)
-    _r7.import_clauses(ctx, res, 'C03', ['C03.b'], 'C01', 'C01.s', 'R-PROV', 'the output entry captured in replay is formed like the recorded one (the comparison sees equal values for equal calls)', floor=1)
+    _r7.import_clauses(ctx, res, 'C03', ['C03.a', 'C03.b'], 'C01', 'C01.s', 'R-PROV', 'the output entry captured in replay is formed like the recorded one (the comparison sees equal values for equal calls)', floor=1)
     return res
 
 
